@@ -23,6 +23,7 @@ def command_callee(it: Any) -> Any:
     knows (or, failing that, on a local bound from a function whose return annotation names one class of the package that has it)."""
     local_imports: dict[str, dict[str, str]] = {}
     by_qual: dict[str, Any] = {}
+    busy: set[tuple] = set()   # receivers being resolved (`x = x.next()` is bound from a call on itself)
 
     def imports_of(ix: Any, f: Any) -> dict[str, str]:
         if f.qual not in local_imports:
@@ -58,12 +59,16 @@ def command_callee(it: Any) -> Any:
         """the method `meth` of the one class named in the return annotation of the function the receiver was bound from"""
         from ..astutil import Locals
 
-        if not isinstance(recv, ast.Name):
+        if not isinstance(recv, ast.Name) or (f.qual, recv.id) in busy:
             return None
         found = set()
         for _k, _st, v in Locals(f.node).defs.get(recv.id, ()):
             if isinstance(v, ast.Call):
-                g = callee(ix, f, v)
+                busy.add((f.qual, recv.id))
+                try:
+                    g = callee(ix, f, v)
+                finally:
+                    busy.discard((f.qual, recv.id))
                 ann = getattr(getattr(g, "node", None), "returns", None)
                 for n in (ast.walk(ann) if ann is not None else ()):
                     if isinstance(n, (ast.Name, ast.Attribute)):
